@@ -142,3 +142,18 @@ impl<M> WeakCaller<M> {
 #[verifier::external_body] #[verifier::accept_recursive_types(A)] pub struct WeakAddr<A> { p: core::marker::PhantomData<A> }
 impl<A> OwnView for WeakAddr<A> { open spec fn own(&self) -> Own { Own { none: false, chan: self.chan(), s_tx: false, s_force: false, w_tx: true, w_force: true, mixed: false } } }
 impl<A> WeakAddr<A> { pub uninterp spec fn chan(&self) -> int; pub uninterp spec fn cid(&self) -> int; pub uninterp spec fn slot(&self) -> int; }
+// the future `Sender::send` returns, as a VALUE (rule A1n; only a changed tree uses it): polled once and dropped it has completed (Some)
+// or not (None) - and in the latter case the payload may already sit in the queue (SinkExt::send enqueues, then waits for space)
+#[verifier::external_body] pub struct SenderSendFut { x: u8 }
+impl SenderSendFut { pub uninterp spec fn chan(&self) -> int; }
+impl VFuture for SenderSendFut {
+    type Output = Result<(), ActorError>;
+    open spec fn pre(&self, w: &World) -> bool { true }
+    open spec fn done(&self, w0: &World, w1: &World, out: &Result<(), ActorError>) -> bool { one_enq(w0, w1, self.chan(), false, *out is Ok) }
+    open spec fn dropped(&self, w0: &World, w1: &World) -> bool { one_enq(w0, w1, self.chan(), false, true) || one_enq(w0, w1, self.chan(), false, false) }
+    uninterp spec fn ready_at(&self) -> nat;
+    #[verifier::external_body] fn await_(self, Tracked(w): Tracked<&mut World>) -> (r: Self::Output) { unimplemented!() }
+}
+impl<M> Sender<M> {
+    #[verifier::external_body] pub fn send__fut(&self, msg: M) -> (r: SenderSendFut) ensures r.chan() == self.chan() { unimplemented!() }
+}
